@@ -1127,7 +1127,7 @@ class Ctx:
             for kk, b in targets:
                 if kk is None:
                     opts.append((b, Not(Or(others)) if others else BoolVal(True)))
-            return self.branch(opts)
+            return self.branch(_merge_same_target(opts))
         if not is_bv(v):
             raise Unmodelled('switch on %r' % (type(v).__name__,))
         w = v.size()
@@ -1148,7 +1148,7 @@ class Ctx:
         for kk, b in targets:
             if kk is None:
                 opts.append((b, Not(Or(others)) if others else BoolVal(True)))
-        return self.branch(opts)
+        return self.branch(_merge_same_target(opts))
 
     def call(self, callee, args, frame=None):
         h = self.ex.handler_for(callee)
@@ -1179,6 +1179,17 @@ class Ctx:
         if hasattr(clo, 'invoke'):
             return clo.invoke(self, args)
         raise Unmodelled('call of %r' % (type(clo).__name__,))
+
+
+def _merge_same_target(opts):
+    """`A | B => bb` lowers to two switch values with one target: the path label is the target, so the conditions are joined"""
+    out = []; idx = {}
+    for b, c in opts:
+        if b in idx:
+            out[idx[b]] = (b, Or(out[idx[b]][1], c))
+        else:
+            idx[b] = len(out); out.append((b, c))
+    return out
 
 
 class _Payload:
